@@ -10,11 +10,12 @@ pub mod c09;
 pub mod c10;
 pub mod c11;
 pub mod c12;
+pub mod c13;
 pub mod c15;
 
 use crate::engine::Env;
 
-pub const ALL: [&str; 13] = ["C01", "C02", "C03", "C04", "C05", "C06", "C07", "C08", "C09", "C10", "C11", "C12", "C15"];
+pub const ALL: [&str; 14] = ["C01", "C02", "C03", "C04", "C05", "C06", "C07", "C08", "C09", "C10", "C11", "C12", "C13", "C15"];
 
 /// run (or, with env.register_only, just register) every sub-check of a property
 pub fn run(id: &str, env: &mut Env) -> bool {
@@ -31,6 +32,7 @@ pub fn run(id: &str, env: &mut Env) -> bool {
         "C10" => c10::run(env),
         "C11" => c11::run(env),
         "C12" => c12::run(env),
+        "C13" => c13::run(env),
         "C15" => c15::run(env),
         _ => return false,
     }
@@ -53,6 +55,7 @@ pub fn rule(id: &str) -> String {
         "C15" => "Argument tuples for every public Result-returning constructor and setter (Date/DateTime::from_ymd, from_ymdhms, DateTime/Time::from_hms, Time::from_seconds/from_nanos, Offset::from_seconds/from_hms, the 10 DateTime setters, 4 Date setters and 6 Time setters on boundary-dense receivers with offsets): each argument from min, max, max+1, min-1, max-1, 0, 1, 2^31-1, 2^31, 2^32-1, values whose products wrap modulo 2^32, type extremes, random; half of the cases keep all but one argument valid. Oracle: Ok iff the model says valid, value equal to the model's for the unwrapped arguments, Err is OutOfRange, no panic. Metamorphic message check: when Display has the form '<name> must be in the range A..=B' and <name> is an argument of the call, the rejected value lies outside [A,B] and, over a sweep of ~45 alternative values of that argument with the others fixed, every accepted value lies inside [A,B]. Non-trivial: exactly one argument one step outside its range, an argument >= 2^31, a conditional range (month length, range-end year), a message whose range was checked.",
         "C11" => "Cases (value of kind Date/Time/DateTime over all eras with any offset, pattern): patterns are token sequences (1..8) of fields (symbol documented for the type x width 1..=10), unquoted literals (space - / : . , _ T digits parentheses + and the non-ASCII letters e-acute and a CJK character), quoted text (any characters incl. symbol letters and doubled apostrophes) and the '' escape, built so that the documented tokenisation is unambiguous (adjacent fields differ in symbol, no two quote-bearing tokens adjacent) and verified to tokenise back; plus the product 19 symbols x widths 1..=10 x value classes (all hours, noon/midnight seconds, months, week 52/53/1 days, year signs and digit counts 1..7, offsets 0/+-hh/+-hhmm/+-hhmmss, sub-second digit groups). Oracle: reference formatter written from the three doc tables (self-tested against the repository's 403 format assertions). Unspecified renderings (yy for years <= -10, b in the noon/midnight second with a sub-second part, X..XXX for |offset| < 60 s) are skipped and counted. Non-trivial: >= 2 fields and a value in a class the table distinguishes, or any quoting, or an over-long run.",
         "C12" => "Cases (value of kind Date/Time/DateTime, all eras and offsets, coherent unambiguous pattern built by construction): the generator chooses which determining fields are present (date: none / y / y+M / y+M+d / y+D / M / d / M+d; time: none / hour / +minute / +second / +sub-second; hour as H, k, or h/K with an a or b period; zone X or x wide enough for the offset), adds derived fields (G q w e next to a full date, a/b next to H/k) only when their determining fields are present, picks widths from the table (no narrow names, yyyyy+ only when the year fits), lightly shuffles the fields and inserts separators (literals incl. non-ASCII, quoted text, '') - always a non-digit after a variable-width field and never ':' after a width-5 zone. The check re-derives these preconditions from the tokens and skips (counts) anything outside the grammar. Oracle: parse(format(v,p),p) is Ok, formatting the result reproduces the string, absent groups default to 0001-01-01 / 00:00:00 / UTC, and with full date + time + zone the instant (at the pattern's sub-second precision) and the offset are the original ones. Non-trivial: >= 4 fields incl. a variable-width one, BC or 5+-digit year, 12-hour clock at 0/12 h, k at hour 0, day of year, offset with minutes/seconds, one-letter month >= 10, non-ASCII literal, fully determined pattern.",
+        "C13" => "Write side: instants whose UTC and local year lie in 0001..=9999 (range ends, month ends, around 1970, uniform) x whole-minute offsets (|k| <= 1439) x the 5 precisions; the output must match the RFC 3339 date-time grammar (independent hand-written reader from the ABNF) with exactly the requested number of fraction digits and decode to the value's instant truncated to that precision and its offset. Read side: strings assembled from the ABNF - valid date, T, valid time (seconds 00-59), no fraction or '.' + 1..=40 digits (all 9, all 0, 0..01, random), Z or +-hh:mm - through parse_rfc3339 and str::parse; expected instant = local - offset with the fraction's first nine digits (round-to-nearest also accepted beyond nine), offset = the written one; one case in four is a field mutant (month 00/13, day 00/32/len+1, 29 Feb of a common year, hour 24, minute 60, second 61, offset hour 24, offset minute 60) which must give Err without panicking. Year 0000 and second 60 are skipped as unspecified. Non-trivial: fraction length not in {1,9}, > 9, >= 20 digits, non-zero offset, offset changing the month/year, truncating precision, every mutant.",
         _ => "",
     }
     .to_string()
